@@ -729,6 +729,10 @@ class Watcher(object):
             graceful_timeout = self.graceful_timeout
 
         if process.stopping:
+            # a concurrent kill of this process is in flight: wait for it
+            # to finish, callers go on to reap the process
+            while process.stopping:
+                yield tornado_sleep(0.1)
             raise gen.Return(False)
         try:
             logger.debug("%s: kill process %s", self.name, process.pid)
